@@ -565,4 +565,255 @@ theorem dqTok_of_mk {b quotes : Str} {pipe : Bool} {T : TokCfg}
 
 theorem goodWriter_quoteBody (x : Str) : GoodWriter quoteBody x :=
   ⟨safe_quoteBody x, decodeQuoted_quoteBody x⟩
+
+/-! ### rendering and re-reading nested commands -/
+
+/-- source trees: what the user means -/
+inductive STree where
+  | leaf (x : Str)
+  | node (ts : List STree)
+
+mutual
+def STree.toTree : STree → Tree
+  | .leaf x => .leaf (toCps x)
+  | .node ts => .node (toTrees ts)
+def toTrees : List STree → List Tree
+  | [] => []
+  | t :: ts => t.toTree :: toTrees ts
+end
+
+mutual
+/-- a leaf is written in double quotes, a sub-command between the brackets -/
+def render (l r : Char) : STree → Str
+  | .leaf x => quote x
+  | .node ts => l :: renderList l r ts ++ [r]
+/-- items separated by one blank -/
+def renderList (l r : Char) : List STree → Str
+  | [] => []
+  | t :: ts => render l r t ++ renderSp l r ts
+/-- every item preceded by one blank -/
+def renderSp (l r : Char) : List STree → Str
+  | [] => []
+  | t :: ts => ' ' :: render l r t ++ renderSp l r ts
+end
+
+mutual
+def STree.size : STree → Nat
+  | .leaf _ => 1
+  | .node ts => 2 + sizeL ts
+def sizeL : List STree → Nat
+  | [] => 0
+  | t :: ts => t.size + sizeL ts
+end
+
+/-- what the parser needs to know about the Tokenizer instance when brackets `l r` are enabled -/
+structure BrTok (T : TokCfg) (l r : Char) : Prop extends DqTok T where
+  hl : T.left = [l]
+  hr : T.right = [r]
+  ne : l ≠ r
+  l_ws : l ∉ T.lexCfg.whitespace
+  r_ws : r ∉ T.lexCfg.whitespace
+  l_sep : l ∈ T.lexCfg.separators
+  r_sep : r ∈ T.lexCfg.separators
+  l_q : l ∉ T.lexCfg.quotes
+  r_q : r ∉ T.lexCfg.quotes
+  l_pipe : l ≠ '|'
+
+theorem inside_step_dq {T : TokCfg} (hT : DqTok T) (x : Str) (n : Nat) (rest : Str) :
+    insideBrackets T (n + 1) (bnd (quote x ++ rest)) =
+      (insideBrackets T n (bnd rest)).bind fun (items, lx) => .ok (.leaf (toCps x) :: items, lx) := by
+  have hg : getToken T.lexCfg (bnd (quote x ++ rest)) = .tok (quote x) (bnd rest) := by
+    have := getToken_quoted hT.lex (quoteBody x) rest (safe_quoteBody x)
+    simpa [quote] using this
+  have h0 : quote x ≠ [] := dq_ne_short quoteBody x [] (by simp)
+  have h2 : quote x ≠ T.left := dq_ne_short quoteBody x _ hT.left
+  have h3 : quote x ≠ T.right := dq_ne_short quoteBody x _ hT.right
+  have h4 : handleToken T.quotes (quote x) = .ok (toCps x) := by
+    rw [quote, handleToken_quoted _ hT.q, decodeQuoted_quoteBody]
+  rw [insideBrackets, hg]
+  simp only [h0, h2, h3, h4, if_false, PR.bind]
+
+mutual
+theorem inside_list {T : TokCfg} {l r : Char} (hT : BrTok T l r) (ts : List STree) (n : Nat) (rest : Str)
+    (hn : sizeL ts + 1 ≤ n) :
+    insideBrackets T n (bnd (renderList l r ts ++ r :: rest)) = .ok (toTrees ts, bnd rest) := by
+  obtain ⟨m, rfl⟩ : ∃ m, n = m + 1 := ⟨n - 1, by omega⟩
+  match ts with
+  | [] =>
+    simp only [renderList, List.nil_append, insideBrackets, getToken_punct r hT.r_ws hT.r_sep hT.r_q, hT.hr, toTrees]
+    simp
+  | .leaf x :: ts =>
+    simp only [renderList, render, List.append_assoc]
+    rw [inside_step_dq hT.toDqTok, inside_sp hT ts m rest (by simp [sizeL, STree.size] at hn; omega)]
+    simp [PR.bind, toTrees, STree.toTree]
+  | .node ts' :: ts =>
+    simp only [renderList, render, List.append_assoc, List.cons_append, List.nil_append]
+    rw [insideBrackets, getToken_punct l hT.l_ws hT.l_sep hT.l_q]
+    have h1 : [l] ≠ T.right := by rw [hT.hr]; simp [hT.ne]
+    simp only [hT.hl, h1, if_true, if_false, List.cons_ne_nil]
+    rw [inside_list hT ts' m _ (by simp [sizeL, STree.size] at hn; omega)]
+    simp only [PR.bind]
+    rw [inside_sp hT ts m rest (by simp [sizeL, STree.size] at hn; omega)]
+    simp [toTrees, STree.toTree]
+theorem inside_sp {T : TokCfg} {l r : Char} (hT : BrTok T l r) (ts : List STree) (n : Nat) (rest : Str)
+    (hn : sizeL ts + 1 ≤ n) :
+    insideBrackets T n (bnd (renderSp l r ts ++ r :: rest)) = .ok (toTrees ts, bnd rest) := by
+  obtain ⟨m, rfl⟩ : ∃ m, n = m + 1 := ⟨n - 1, by omega⟩
+  match ts with
+  | [] =>
+    simp only [renderSp, List.nil_append, insideBrackets, getToken_punct r hT.r_ws hT.r_sep hT.r_q, hT.hr, toTrees]
+    simp
+  | .leaf x :: ts =>
+    simp only [renderSp, render, List.append_assoc, List.cons_append]
+    rw [insideBrackets, getToken_space hT.lex, ← insideBrackets]
+    rw [inside_step_dq hT.toDqTok, inside_sp hT ts m rest (by simp [sizeL, STree.size] at hn; omega)]
+    simp [PR.bind, toTrees, STree.toTree]
+  | .node ts' :: ts =>
+    simp only [renderSp, render, List.append_assoc, List.cons_append, List.nil_append]
+    rw [insideBrackets, getToken_space hT.lex, getToken_punct l hT.l_ws hT.l_sep hT.l_q]
+    have h1 : [l] ≠ T.right := by rw [hT.hr]; simp [hT.ne]
+    simp only [hT.hl, h1, if_true, if_false, List.cons_ne_nil]
+    rw [inside_list hT ts' m _ (by simp [sizeL, STree.size] at hn; omega)]
+    simp only [PR.bind]
+    rw [inside_sp hT ts m rest (by simp [sizeL, STree.size] at hn; omega)]
+    simp [toTrees, STree.toTree]
+end
+
+mutual
+theorem size_le_render (l r : Char) (t : STree) : t.size ≤ (render l r t).length := by
+  match t with
+  | .leaf x => simp [STree.size, render, quote]
+  | .node ts => have := sizeL_le_renderList l r ts; simp [STree.size, render]; omega
+theorem sizeL_le_renderList (l r : Char) (ts : List STree) : sizeL ts ≤ (renderList l r ts).length := by
+  match ts with
+  | [] => simp [sizeL]
+  | t :: ts =>
+    have := size_le_render l r t; have := sizeL_le_renderSp l r ts
+    simp [sizeL, renderList]; omega
+theorem sizeL_le_renderSp (l r : Char) (ts : List STree) : sizeL ts ≤ (renderSp l r ts).length := by
+  match ts with
+  | [] => simp [sizeL]
+  | t :: ts =>
+    have := size_le_render l r t; have := sizeL_le_renderSp l r ts
+    simp [sizeL, renderSp]; omega
+end
+
+theorem topLoop_step_node {T : TokCfg} {l r : Char} (hT : BrTok T l r) (ts' : List STree) (n : Nat)
+    (hn : sizeL ts' + 1 ≤ n) (rest : Str) (args : List Tree) (ends : List (List Tree)) :
+    topLoop T (n + 1) (bnd (render l r (.node ts') ++ rest)) args ends =
+      topLoop T n (bnd rest) (args ++ [.node (toTrees ts')]) ends := by
+  simp only [render, List.append_assoc, List.cons_append, List.nil_append]
+  rw [topLoop, getToken_punct l hT.l_ws hT.l_sep hT.l_q]
+  have h1 : ¬ ([l] = ['|'] ∧ T.pipe = true) := fun h => hT.l_pipe (by simpa using h.1)
+  simp only [h1, hT.hl, if_true, if_false, List.cons_ne_nil]
+  rw [inside_list hT ts' n _ hn]
+  simp only [PR.bind]
+
+theorem topLoop_sp {T : TokCfg} {l r : Char} (hT : BrTok T l r) (ts : List STree) (n : Nat)
+    (hn : sizeL ts + 1 ≤ n) (args : List Tree) :
+    topLoop T n (bnd (renderSp l r ts)) args [] = .ok (args ++ toTrees ts, []) := by
+  induction ts generalizing n args with
+  | nil =>
+    obtain ⟨m, rfl⟩ : ∃ m, n = m + 1 := ⟨n - 1, by omega⟩
+    simp [renderSp, topLoop, getToken_eof, toTrees]
+  | cons t ts ih =>
+    obtain ⟨m, rfl⟩ : ∃ m, n = m + 1 := ⟨n - 1, by omega⟩
+    rw [renderSp, List.cons_append, topLoop, getToken_space hT.lex, ← topLoop]
+    cases t with
+    | leaf x =>
+      rw [show render l r (.leaf x) = dq quoteBody x from rfl,
+        topLoop_step_dq hT.toDqTok quoteBody x (goodWriter_quoteBody x),
+        ih m (by simp [sizeL, STree.size] at hn; omega)]
+      simp [toTrees, STree.toTree]
+    | node ts' =>
+      rw [topLoop_step_node hT ts' m (by simp [sizeL, STree.size] at hn; omega),
+        ih m (by simp [sizeL, STree.size] at hn; omega)]
+      simp [toTrees, STree.toTree]
+
+theorem tokenizeT_render {T : TokCfg} {l r : Char} (hT : BrTok T l r) (ts : List STree) :
+    tokenizeT T (renderList l r ts) = .ok (toTrees ts) := by
+  have hlen := sizeL_le_renderList l r ts
+  cases ts with
+  | nil => simp [tokenizeT, renderList, fuelFor, topLoop, initLexer, getToken, readLoop, PR.bind, assemble, toTrees]
+  | cons t ts =>
+    rw [tokenizeT, show initLexer (renderList l r (t :: ts)) = bnd (renderList l r (t :: ts)) from rfl,
+      show fuelFor (renderList l r (t :: ts)) = (2 * (renderList l r (t :: ts)).length + 2) + 1 from rfl]
+    rw [renderList] at hlen ⊢
+    rw [List.length_append] at hlen ⊢
+    have h2 := sizeL_le_renderSp l r ts
+    cases t with
+    | leaf x =>
+      rw [show render l r (.leaf x) = dq quoteBody x from rfl,
+        topLoop_step_dq hT.toDqTok quoteBody x (goodWriter_quoteBody x),
+        topLoop_sp hT ts _ (by simp only [sizeL, STree.size] at hlen; omega)]
+      simp [PR.bind, assemble, toTrees, STree.toTree]
+    | node ts' =>
+      rw [topLoop_step_node hT ts' _ (by simp only [sizeL, STree.size] at hlen; omega),
+        topLoop_sp hT ts _ (by simp only [sizeL, STree.size] at hlen; omega)]
+      simp [PR.bind, assemble, toTrees, STree.toTree]
+
+/-- `renderList` is the items joined by single blanks -/
+theorem renderList_eq_join (l r : Char) (ts : List STree) :
+    renderList l r ts = joinChar ' ' (ts.map (render l r)) := by
+  have hsp : ∀ (t : STree) (ts : List STree),
+      joinChar ' ' ((t :: ts).map (render l r)) = render l r t ++ renderSp l r ts := by
+    intro t ts
+    induction ts generalizing t with
+    | nil => simp [joinChar, renderSp]
+    | cons u us ih => simp only [List.map_cons, joinChar] at ih ⊢; rw [ih u]; simp [renderSp]
+  cases ts with
+  | nil => simp [renderList, joinChar]
+  | cons t ts => rw [hsp, renderList]
+
+theorem brTok_of_mk {quotes : Str} {pipe : Bool} {T : TokCfg} {l r : Char}
+    (ht : TablesOk Gen.shlexWhitespace Gen.validBrackets Gen.validQuoteChars)
+    (hb : BracketOk Gen.shlexWhitespace Gen.validQuoteChars [l, r])
+    (hsub : ∀ q ∈ quotes, q ∈ Gen.validQuoteChars)
+    (hT : mkTokenizer [l, r] pipe quotes = .ok T) (hq : '"' ∈ quotes) : BrTok T l r := by
+  have hd := dqTok_of_mk ht hb hT hq
+  obtain ⟨hne, hlw, hrw, hlq, hrq, hlp, _⟩ := hb
+  simp only [mkTokenizer] at hT
+  cases hT
+  exact { hd with
+    hl := rfl, hr := rfl, ne := hne, l_ws := hlw, r_ws := hrw, l_pipe := hlp
+    l_sep := by cases pipe <;> simp [TokCfg.lexCfg]
+    r_sep := by cases pipe <;> simp [TokCfg.lexCfg]
+    l_q := fun h => hlq (hsub _ h)
+    r_q := fun h => hrq (hsub _ h) }
+
+/-! ### nesting disabled: no sub-lists -/
+
+def Tree.isLeaf : Tree → Prop
+  | .leaf _ => True
+  | .node _ => False
+
+theorem topLoop_flat (T : TokCfg) (hl : T.left = []) (hr : T.right = []) (hp : T.pipe = false) :
+    ∀ (n : Nat) (lx : Lexer) (args : List Tree) (a : List Tree) (e : List (List Tree)),
+      (∀ t ∈ args, t.isLeaf) → topLoop T n lx args [] = .ok (a, e) → (∀ t ∈ a, t.isLeaf) ∧ e = [] := by
+  intro n
+  induction n with
+  | zero => intro lx args a e _ h; simp [topLoop] at h
+  | succ n ih =>
+    intro lx args a e hargs h
+    rw [topLoop] at h
+    cases hg : getToken T.lexCfg lx with
+    | hang => simp [hg, rtCast] at h
+    | valueError => simp [hg, rtCast] at h
+    | tok token lx' =>
+      simp only [hg] at h
+      by_cases h0 : token = []
+      · simp only [h0, if_true] at h
+        cases h
+        exact ⟨hargs, rfl⟩
+      · have h0' : ¬ ([] : Str) = token := fun e => h0 e.symm
+        simp only [h0, hp, hl, hr, if_false, and_false, Bool.false_eq_true] at h
+        cases hh : handleToken T.quotes token with
+        | ok t =>
+          simp only [hh, PR.bind] at h
+          refine ih lx' _ a e ?_ h
+          intro u hu
+          rcases List.mem_append.1 hu with hu | hu
+          · exact hargs u hu
+          · simp at hu; subst hu; trivial
+        | _ => simp [hh, PR.bind] at h
 end C13
